@@ -180,7 +180,7 @@ class StructMap:
             if f.got == f.size and f.size in (1, 2, 4, 8) and f.off + f.size <= n and f.fmt != "float":
                 f.value = int.from_bytes(raw, "big")
                 f.kind = "num"
-                if f.size == 4 and raw in (b"8BIM", b"8B64", b"8BPS", b"MeSa", b"AgHg", b"PHUT", b"DCSR"):
+                if f.size == 4 and raw in SIGNATURES:
                     f.kind = "sig"
                 # a length: the next read on the same stream asks for exactly that many bytes right after the field
                 for g in fs[k + 1:k + 3]:
@@ -1052,3 +1052,251 @@ def classify(res):
             return f"C02/{stage}/{detail.split(':')[0]}/{info['where']}"
         return f"C02/{stage}/{detail.split(':')[0]}"
     return f"C02/{stage}"
+
+
+# ---------------------------------------------------------------------------------------------
+# signature fields: the accepted alternatives, regenerated from the source
+# ---------------------------------------------------------------------------------------------
+SIGNATURES = (b"8BIM", b"8B64", b"8BPS", b"MeSa", b"AgHg", b"PHUT", b"DCSR")     # fallback when the scan finds nothing
+CONSULTED = frozenset()        # 4-byte keys of the blocks the writer's fallback rules test (set by the caller before forking)
+
+
+def signature_alternatives():
+    """Every 4-byte signature some reader of psd_tools.psd compares against or validates with, from the source of the
+    working tree: (a) the `in_((...))` validators of attributes named *signature* (live classes), (b) class attributes
+    whose name contains SIGNATURE, (c) the constants of every comparison (`==`, `!=`, `in`, `not in`) one side of which
+    mentions a name containing `signature`, (d) the default of such an attribute.  -> (sorted tuple, {where: [sigs]})"""
+    import ast
+    found = {}
+
+    def add(where, val):
+        if isinstance(val, (bytes, bytearray)) and len(val) == 4:
+            found.setdefault(where, set()).add(bytes(val))
+
+    root = core.REPO / "src" / "psd_tools" / "psd"
+    for path in sorted(root.rglob("*.py")):
+        try:
+            tree = ast.parse(path.read_text())
+        except (OSError, SyntaxError):
+            continue
+        mod = path.stem
+
+        def consts(node):
+            return [n.value for n in ast.walk(node) if isinstance(n, ast.Constant) and isinstance(n.value, bytes)]
+
+        for n in ast.walk(tree):
+            if isinstance(n, ast.Compare):
+                sides = [n.left] + list(n.comparators)
+                if any("signature" in ast.unparse(s_).lower() for s_ in sides):
+                    for s_ in sides:
+                        for c in consts(s_):
+                            add(mod + ":compare", c)
+            elif isinstance(n, (ast.Assign, ast.AnnAssign)):
+                tg = n.targets if isinstance(n, ast.Assign) else [n.target]
+                names = [t.id for t in tg if isinstance(t, ast.Name)]
+                if n.value is not None and any("signature" in x.lower() for x in names):
+                    for c in consts(n.value):
+                        add(mod + ":" + names[0], c)
+    try:
+        import attr
+        import importlib
+        import inspect
+        for path in sorted(root.rglob("*.py")):
+            modname = "psd_tools.psd." + ".".join(path.relative_to(root).with_suffix("").parts)
+            if modname.endswith("__init__"):
+                modname = modname[:-9]
+            try:
+                m = importlib.import_module(modname)
+            except Exception:  # noqa
+                continue
+            for _, cls in inspect.getmembers(m, inspect.isclass):
+                if cls.__module__ != m.__name__ or not attr.has(cls):
+                    continue
+                for f in attr.fields(cls):
+                    if "signature" in f.name.lower():
+                        add(cls.__name__ + ".default", f.default)
+                        for o in (getattr(f.validator, "options", None) or ()):
+                            add(cls.__name__ + ".validator", o)
+    except Exception:  # noqa
+        pass
+    allsigs = set()
+    for v in found.values():
+        allsigs |= v
+    if not allsigs:
+        allsigs = set(SIGNATURES)
+    return tuple(sorted(allsigs)), {k: sorted(x.decode("latin1") for x in v) for k, v in sorted(found.items())}
+
+
+def sig_mutants(sm: StructMap, sigs, cap=None):
+    """every signature field of the map x every other accepted signature -> [(None, recipe)];
+    cap: at most that many sites per (reader class, reader statement, current value, following key)"""
+    sites = []
+    for f in sm.sigs:
+        nxt = sm.data[f.off + 4:f.off + 8] if sm.data is not None else b""
+        sites.append({"feat": (f.label, f.site, f.ctx, bytes(sm.data[f.off:f.off + 4]), bytes(nxt)), "f": f})
+    if cap is not None:
+        sites = _thin_sites(sites, cap)
+    out = []
+    for s_ in sites:
+        f = s_["f"]
+        cur = bytes(sm.data[f.off:f.off + 4])
+        for alt in sigs:
+            if alt != cur:
+                out.append((None, {"op": "sig-alt", "off": f.off, "label": f.label, "site": f.site,
+                                   "how": "%s->%s" % (cur.decode("latin1"), alt.decode("latin1")),
+                                   "next": sm.data[f.off + 4:f.off + 8].decode("latin1"),
+                                   "edits": [["put", f.off, alt.hex()]]}))
+    return out
+
+
+def _thin_sites(sites, cap):
+    by = {}
+    for s_ in sites:
+        by.setdefault(s_["feat"], []).append(s_)
+    out = []
+    for lst in by.values():
+        if len(lst) > cap:
+            idx = sorted({0, len(lst) - 1} | {(k * (len(lst) - 1)) // max(1, cap - 1) for k in range(cap)})[:cap]
+            lst = [lst[k] for k in idx]
+        out += lst
+    return out
+
+
+# ---------------------------------------------------------------------------------------------
+# short length-prefixed fields (1- and 2-byte length: Pascal strings, ...): boundary lengths of the field width
+# ---------------------------------------------------------------------------------------------
+def boundary_lengths(width: int):
+    """lengths a `width`-byte length field can hold, at its boundaries: 0, 1, around the powers of two where writers keep
+    fallback / truncation rules (2^k - 1, 2^k for k = 2, 5, 7 and, for two bytes, 8, 15), max - 1, max"""
+    m = 256 ** width - 1
+    ks = (2, 5, 7) if width == 1 else (2, 5, 7, 8, 15)
+    return sorted({0, 1, m - 1, m} | {x for k in ks for x in (2 ** k - 1, 2 ** k) if x <= m})
+
+
+def short_len_sites(sm: StructMap):
+    """length fields of 1 or 2 bytes followed by exactly that many raw bytes (and possibly by a padding read of up to 3
+    zero bytes): -> [{"off", "width", "len", "pad", "end", "label", "site", "ctx", "feat", "encl"}]"""
+    by_off = {}
+    for f in sm.fields:
+        by_off.setdefault(f.off, []).append(f)
+    data = sm.data
+    out = []
+    for f in sm.fields:
+        if f.kind not in ("num", "len") or f.size not in (1, 2) or f.got != f.size or f.code not in ("B", "H") \
+                or "#" in (f.site or ""):          # an item of a composite struct is not a length prefix
+            continue
+        body_end = f.off + f.size + f.value
+        if f.value:
+            if not any(g.size == g.got == f.value and g.fmt is None and g.code is None and g.label == f.label
+                       for g in by_off.get(f.off + f.size, ())):
+                continue
+        elif f.size != 1:
+            continue
+        pad = 0
+        for h in by_off.get(body_end, ()):
+            if h is not f and h.fmt is None and 0 < h.size == h.got <= 3 and h.label == f.label \
+                    and not any(data[h.off:h.off + h.got]):
+                pad = h.got
+                break
+        if not f.value and not pad:
+            continue            # a lone zero byte: not recognisable as a length
+        enc = sm.enclosing(f.off, body_end + pad)
+        out.append({"k": "plen", "off": f.off, "width": f.size, "len": f.value, "pad": pad, "end": body_end + pad,
+                    "label": f.label, "site": f.site, "ctx": f.ctx, "feat": ("plen", f.label, f.site, f.ctx, f.size),
+                    "encl": [(g.off, g.size, g.value, e0, e1) for g, e0, e1, _ in enc]})
+    return out
+
+
+def short_len_sites_with_drops(sm: StructMap):
+    """short_len_sites + for the sites of a layer record the first following block with a consulted key ("drop")"""
+    out = short_len_sites(sm)
+    for s_ in out:
+        s_["drop"] = sibling_blocks(sm, s_, CONSULTED)[:1] if (s_["label"] == "LayerRecord" and CONSULTED) else []
+    return out
+
+
+def _filler(n):
+    return bytes(0x61 + (i % 26) for i in range(n))
+
+
+def sibling_blocks(sm: StructMap, site, keys):
+    """tagged blocks with one of `keys` (4-byte values) that follow the site inside its innermost enclosing container
+    -> [(start, end, key)] (start = the block's signature)"""
+    if not site["encl"]:
+        return []
+    _, _, _, c0, c1 = site["encl"][0]
+    sig_offs = sorted(f.off for f in sm.sigs)
+    out = []
+    for f in sm.lens + [c[0] for c in sm.containers if c[3]]:
+        if f.label != "TaggedBlock" or f.off - 8 < site["end"] or f.off + f.size + f.value > c1:
+            continue
+        key = bytes(sm.data[f.off - 4:f.off])
+        if key not in keys:
+            continue
+        end = f.off + f.size + f.value
+        nxt = next((o for o in sig_offs if o >= end), None)
+        if nxt is not None and nxt - end < 4:
+            end = nxt
+        elif end < c1 and c1 - end < 4:
+            end = c1
+        out.append((f.off - 8, end, key))
+    return out
+
+
+def plen_variants(site, lengths=None, drop=()):
+    """the field set to every boundary length, for every padding unit consistent with what was read; the enclosing
+    length fields are re-computed.  drop: [(start, end, key)] blocks of the same container deleted in addition (one
+    variant set per block) -> [(name, edits)] (edits ordered from the highest offset down)"""
+    w, off, end = site["width"], site["off"], site["end"]
+    old = end - off
+    pads = [p for p in (1, 2, 4) if (-(w + site["len"])) % p == site["pad"]] or [1]
+    out = []
+    for L in (lengths if lengths is not None else boundary_lengths(w)):
+        for p in pads:
+            new = L.to_bytes(w, "big") + _filler(L)
+            new += b"\0" * (-len(new) % p)
+            if L == site["len"] and len(new) == old:
+                continue
+            for dr in [None] + list(drop):
+                delta = len(new) - old - ((dr[1] - dr[0]) if dr else 0)
+                eds = []
+                ok = True
+                for eo, es, ev, e0, e1 in site["encl"]:
+                    if dr and not (e0 <= dr[0] and dr[1] <= e1):
+                        ok = False
+                        break
+                    nv = ev + delta
+                    if nv < 0 or nv >= 256 ** es:
+                        ok = False
+                        break
+                    eds.append(["put", eo, nv.to_bytes(es, "big").hex()])
+                if not ok:
+                    continue
+                seq = ([["rep", dr[0], dr[1], ""]] if dr else []) + [["rep", off, end, new.hex()]] + \
+                    sorted(eds, key=lambda e: -e[1])
+                out.append(("len=%d pad%d%s" % (L, p, (" without " + dr[2].decode("latin1")) if dr else ""), seq))
+    return out
+
+
+def writer_consulted_keys():
+    """Tag names `X` such that some method of LayerRecord tests `Tag.X in self.tagged_blocks` (what the writer's
+    fallback rules look at), with their 4-byte values -> {name: value}"""
+    import ast
+    out = {}
+    try:
+        from psd_tools.constants import Tag
+        tree = ast.parse((core.REPO / "src" / "psd_tools" / "psd" / "layer_and_mask.py").read_text())
+        for cls in ast.walk(tree):
+            if isinstance(cls, ast.ClassDef) and cls.name == "LayerRecord":
+                for n in ast.walk(cls):
+                    if isinstance(n, ast.Compare) and any(isinstance(o, (ast.In, ast.NotIn)) for o in n.ops) \
+                            and "tagged_blocks" in ast.unparse(n.comparators[-1]):
+                        for a in ast.walk(n.left):
+                            if isinstance(a, ast.Attribute) and isinstance(a.value, ast.Name) and a.value.id == "Tag":
+                                try:
+                                    out[a.attr] = Tag[a.attr].value
+                                except KeyError:
+                                    pass
+    except Exception:  # noqa
+        pass
+    return out
